@@ -5,6 +5,7 @@
    Typing convention (JSON/YAML): a bool is not an int, a float is not an int. *)
 From Coq Require Import List NArith ZArith Bool.
 From MV Require Import Base.PyStr Base.Res Cfg.StrOps Cfg.Cfg Cfg.CfgSpec Cfg.CfgProofs Gen.Config.
+From MV Require Import Cfg.CfgSrcPrelude Gen.ConfigSrc Cfg.CfgSrcProofs.
 Import ListNotations.
 Open Scope N_scope.
 
@@ -195,6 +196,55 @@ Proof.
   apply (sphinx_conf_equal (E_of imp) fields conf d); try assumption; vm_compute; reflexivity.
 Qed.
 Print Assumptions C13_sphinx_conf_equal.
+
+(* ---- source-translation tie (round 3): statements about the definitions REGENERATED on every run from
+   dc_validators.py and config/main.py (Gen/ConfigSrc.v: the closures of instance_of / optional / in_ /
+   deep_iterable / deep_mapping, check_extensions / check_url_schemes / check_sub_delimiters /
+   check_inventories / check_fence_as_directive / check_positive_int, and merge_file_level, statement by
+   statement).  Refinement lemmas: Cfg/CfgSrcProofs.v; domain mapping of the atoms: gen/c13_src.py +
+   Cfg/CfgSrcPrelude.v.  [validate_src] interprets a validator tree with the regenerated closures
+   (check_heading_slug_func, which calls importlib, stays the hand model). ---- *)
+
+Theorem C13_source_refines_model :
+  (forall E e v, validate_src E e v = validate E e v) /\
+  (forall E fs c top,
+     merge_file_level_src E fs c top =
+     match merge_file_level E fs c (JDict top) with
+     | Ok st => Ok (st_new st, st_warn st)
+     | Raise e => Raise e
+     end).
+Proof. split; [exact validate_src_eq | exact merge_file_level_src_eq]. Qed.
+Print Assumptions C13_source_refines_model.
+
+(* every field's validator, run with the regenerated validator code, accepts exactly the documented type *)
+Theorem C13_fields_match_types_src : forall imp f, In f fields ->
+  exists t, doc_ty f = Some t /\
+            forall v, is_ok (validate_src (E_of imp) (f_val f) v) = true <-> has_type (E_of imp) v t.
+Proof.
+  intros imp f Hin. destruct (C13_fields_match_types imp f Hin) as [t [D H]].
+  exists t. split; [exact D|]. intro v. rewrite validate_src_eq. apply H.
+Qed.
+Print Assumptions C13_fields_match_types_src.
+
+(* front matter = global, for the regenerated merge_file_level and validators *)
+Theorem C13_frontmatter_equals_global_src : forall imp c f v,
+  stable_cfg (E_of imp) fields c -> In f fields ->
+  match validate_src (E_of imp) (f_val f) v with
+  | Raise _ =>
+      merge_file_level_src (E_of imp) fields c (top_list (f_name f) v) = Ok (c, [WInvalid (f_name f)])
+      /\ is_ok (copy (E_of imp) fields c [(f_name f, v)]) = false
+  | Ok _ =>
+      exists new,
+        merge_file_level_src (E_of imp) fields c (top_list (f_name f) v) = Ok (new, []) /\
+        if f_merge f
+        then exists old merged, cfg_get (f_name f) c = Some old /\ dict_merge old v = Ok merged /\
+                                copy (E_of imp) fields c [(f_name f, merged)] = Ok new
+        else copy (E_of imp) fields c [(f_name f, v)] = Ok new
+  end.
+Proof.
+  intros imp c f v S Hin. apply frontmatter_equals_global_src; try assumption; vm_compute; reflexivity.
+Qed.
+Print Assumptions C13_frontmatter_equals_global_src.
 
 (* the code before the repair (raw value assigned after validation) did not have the property:
    front matter  myst: {url_schemes: [http]}  left a list where the global setting gives a dict *)
